@@ -33,7 +33,23 @@ fn strategy(outer_absent: bool) -> impl Strategy<Value = Case> {
 		outer_absent,
 		..GenCfg::default()
 	};
-	(mapset(cfg), order_seed(), order_seed()).prop_map(|(m, order1, order2)| Case { m, order1, order2 })
+	(mapset(cfg), order_seed(), order_seed(), any::<u8>()).prop_map(|(mut m, order1, order2, tweak)| {
+		// tokens that are special only in a particular position: `ACC:` is a modifier prefix, a target name that merely
+		// contains or ends with it is an ordinary name (a tenth of the cases rename members that way)
+		if tweak < 26 {
+			let suffix = ["ACC:", "xACC:PUBLIC", "-ACC:", "COMMENT"][(tweak % 4) as usize];
+			for c in m.classes.values_mut() {
+				for n in c.fields.values_mut().map(|f| &mut f.names).chain(c.methods.values_mut().map(|me| &mut me.names)) {
+					if let Some(t) = n[1].as_mut() {
+						if !t.starts_with('<') {
+							t.push_str(suffix);
+						}
+					}
+				}
+			}
+		}
+		Case { m, order1, order2 }
+	})
 }
 
 /// what the format can express: a constructor has no target name
@@ -132,6 +148,17 @@ fn stream(case: &Case, obs: &mut Obs) -> PropResult {
 			return Ok(());
 		}
 		return Err(e);
+	}
+	// the same through a sink that takes, and a source that hands out, only a few bytes per call
+	let mut short = crate::engine::ShortWrites::new();
+	quill::enigma_file::write_all(&q1, &mut short).map_err(|e| format!("write_all into a sink with short writes failed: {e:#}"))?;
+	if short.out != t1 {
+		return Err(format!("write_all() into a sink that takes 1..7 bytes per call delivered {} of {} bytes", short.out.len(), t1.len()));
+	}
+	let mut back_s: Mappings<2, Ns> = Mappings::from_namespaces([m.ns[0].as_str(), m.ns[1].as_str()]).map_err(|e| format!("{e:#}"))?;
+	quill::enigma_file::read_into(crate::engine::ShortReads::new(&t1), &mut back_s).map_err(|e| format!("reading from a source with short reads failed: {e:#}"))?;
+	if from_quill(&back_s).map_err(|e| format!("{e:#}"))? != expected {
+		return Err("reading from a source with short reads gives another mapping set".into());
 	}
 	// harness-written enigma text of the same content reads to the same set
 	let ht = text::enigma(&expected);
